@@ -97,6 +97,16 @@ def _global_cost_loop(rc: RuleCtx):
     cost = ev.symbol("cost")
     env["cost"] = cost
     pts, red, cache = env["points"], env["reduced"], env["cache"]
+    # an exit in front of the segment loop for "every point is a breakpoint": all segments have two points and no error, so the
+    # cost is the metric's perfect score - 0 for the error metrics, 1 for R2.  One constant for every metric is wrong for one of them.
+    all_kept = canon_sign(sym("R") - sym("n"), OPS["=="])
+    for g_, v_ in fr.returns:
+        if not g_sat(g_):
+            continue
+        if g_implies(g_, all_kept) and isinstance(v_, Rat) and v_.is_const() is not None and "cost" not in str(g_) and "Metrics" not in str(g_):
+            res.violation("U4", mod, fi.name, fi.node,
+                          f"with every point kept as a breakpoint the function returns {v_} for every metric: a perfect reconstruction scores 0 for the error metrics and 1 for R2",
+                          f"return {v_} under {_short(g_, 80)}", "compute_cost(points, zeros, cost): 0, or 1 for Metrics.r2", construct="all-breakpoints exit")
     # U3 (first half): segment_errors has len(reduced) - 1 entries
     seg_names = [n for n, v in env.items() if n not in ("points", "reduced", "cache", "cost")]
     zeros = [st for st in pre if isinstance(st, ast.Assign) and isinstance(st.value, ast.Call)
